@@ -346,7 +346,11 @@ func r39JSONKeysAgree(c *core.Ctx) {
 					return true
 				}
 				h := c.P.ByObj[cal.Origin()]
-				if h == nil || h.Pkg != pk || h.Decl.Body == nil || h.Decl.Recv != nil {
+				if h == nil || h.Pkg != pk || h.Decl.Body == nil {
+					return true
+				}
+				// plain helpers, and methods of the same type other than codec methods (phases of the decoder)
+				if h.Decl.Recv != nil && (strings.Contains(h.Decl.Name.Name, "arshalJSON") || !strings.HasPrefix(h.Name, "tms20."+tn+".")) {
 					return true
 				}
 				passesMap := false
